@@ -6,7 +6,10 @@ state revisited at distance >= 2) AND the call is still iterating after B = 10^6
 evaluations (memoised evaluation makes that affordable).  An orbit that exhausts B without any revisit
 is reported under a separate key, under the same stated reading of "a bounded number" (B = 10^6).
 """
+import glob
+import json
 import math
+import os
 
 from .. import core, solver, traces, universe as U
 from . import spaces
@@ -48,6 +51,10 @@ def judge(case):
         # did not end the call: under this harness's stated reading of "a bounded number" that is a violation too
         _CONFIRMED["n"] += 1
         v.append(core.viol("C10/still_running_after_budget", "flux calculation is still iterating after %d driving-force evaluations (no exact period detected)" % B))
+    if out["period"] is not None or out["status"] in ("lasso", "budget") or out["calls"] > 20000:
+        # remember the dangerous state: every other entry point is driven through it afterwards (see entry_point_space)
+        with open("/dev/shm/c10_dangerous_%d_%d.jsonl" % (os.getppid(), os.getpid()), "a") as f:
+            f.write(json.dumps(core.jsonable(case)) + "\n")
     return core.result(cls, nontrivial=True, digest=core.digest_of([cls.split(":")[0], out["calls"], core.fhex(out["fluxes"][0]) if out["status"] == "ok" else None]),
                        viol=v, states=min(out["calls"], 10 ** 9), transitions=max(out["calls"] - 1, 0), traces=1,
                        max_calls_converged=out["calls"] if out["status"] == "ok" else None,
@@ -70,6 +77,54 @@ def judge_process(case):
         return core.result("aperiodic-and-running", viol=[core.viol("C10/process_hangs/" + setup.kind, "a step of the process model is still iterating after the evaluation budget: %s" % e)], traces=1)
     return core.result("returned" if st == "ok" else "raised:" + type(pm).__name__, digest=core.digest_of([case, st]), traces=1,
                        states=case["steps"], transitions=case["steps"])
+
+
+ENTRY_POINTS = ["ideal_iso", "ideal_noniso", "nonideal_iso", "nonideal_noniso", "ideal_curve", "nonideal_curve", "permeate_composition", "separation_factor"]
+
+
+def judge_entry_point(case):
+    """drive one public entry point through a state at which the flux iteration is known to cycle / crawl."""
+    if _CONFIRMED["n"] >= STOP_AFTER:
+        return core.result("skipped-after-%d-confirmed-violations" % STOP_AFTER, nontrivial=False, skipped=1)
+    st8 = case["state"]
+    mix = U.get_mixture(st8["mixture"])
+    t, x, P, model, prec = st8["T"], st8["x"], st8["P"], st8["model"], st8["precision"]
+    mode = tuple(st8["mode"]) if st8["mode"] != "vac" else "vac"
+    kw = U.permeate_kwargs(mode, t)
+    ep = case["ep"]
+    cs = U.make_curve_set(mix if mix.nrtl_params is not None else U.get_mixture("H2O_EtOH"), law="lawA", temps=(t,)) if ep.startswith("nonideal") else None
+    mem = U.make_membrane(mix, P[0], P[1], t_ref=t, ea1=25000.0, ea2=60000.0, curve_sets=[cs] if cs else None)
+    pv = solver.ObservedPV(membrane=mem, mixture=mix).observe(budget=B)
+    comp = U.Composition(p=x, type="weight")
+    cond = U.Conditions(membrane_area=1e-6, initial_feed_temperature=t, initial_feed_amount=50.0, initial_feed_composition=comp,
+                        permeate_temperature=kw.get("permeate_temperature"), permeate_pressure=kw.get("permeate_pressure"))
+    perms = (U.Permeance(value=P[0]), U.Permeance(value=P[1]))
+    try:
+        if ep == "ideal_iso":
+            st, r = core.call(pv.ideal_isothermal_process, number_of_steps=2, delta_hours=0.1, conditions=cond, precision=prec, calculation_type=model)
+        elif ep == "ideal_noniso":
+            st, r = core.call(pv.ideal_non_isothermal_process, number_of_steps=2, delta_hours=0.1, conditions=cond, precision=prec, calculation_type=model)
+        elif ep == "nonideal_iso":
+            st, r = core.call(pv.non_ideal_isothermal_process, conditions=cond, diffusion_curve_set=cs, number_of_steps=2, delta_hours=0.1, precision=prec,
+                              calculation_type=model, initial_permeances=perms)
+        elif ep == "nonideal_noniso":
+            st, r = core.call(pv.non_ideal_non_isothermal_process, conditions=cond, diffusion_curve_set=cs, number_of_steps=2, delta_hours=0.1, precision=prec,
+                              calculation_type=model, initial_permeances=perms)
+        elif ep == "ideal_curve":
+            st, r = core.call(pv.ideal_diffusion_curve, feed_temperature=t, compositions=[comp], precision=prec, calculation_type=model, **kw)
+        elif ep == "nonideal_curve":
+            st, r = core.call(pv.non_ideal_diffusion_curve, diffusion_curve_set=cs, feed_temperature=t, initial_feed_composition=comp, delta_composition=1e-9,
+                              number_of_steps=1, initial_permeances=perms, precision=prec, calculation_type=model, **kw)
+        elif ep == "permeate_composition":
+            st, r = core.call(pv.calculate_permeate_composition, feed_temperature=t, composition=comp, precision=prec, calculation_type=model, **kw)
+        else:
+            st, r = core.call(pv.calculate_separation_factor, feed_temperature=t, composition=comp, precision=prec, calculation_type=model, **kw)
+    except (solver.Lasso, solver.Budget) as e:  # core.call lets nothing through, kept for clarity
+        st, r = "raise", e
+    if st == "raise" and isinstance(r, (solver.Lasso, solver.Budget)):
+        _CONFIRMED["n"] += 1
+        return core.result("still-running", viol=[core.viol("C10/entry_point_hangs/" + ep, "%s does not finish at a state where the flux iteration cycles: %s" % (ep, r), state=st8)], traces=1)
+    return core.result("returned" if st == "ok" else "raised:" + type(r).__name__, digest=core.digest_of(case), traces=1, states=1, transitions=1)
 
 
 def flux_space(tier, seed):
@@ -117,8 +172,24 @@ def main(tier, seed):
                      "other arguments -> same output); the real loop, exit test and counters still run every iteration",
                      "an orbit that neither converges, raises nor revisits a float within B evaluations is reported as a violation under the same reading of B (on this tree the library's own bound is 1e5, so B is never reached)"],
         technique="lasso detection on the exact float orbit of the fixed-point iteration (explicit-state liveness), exhaustive over a finite lattice")
+    for f in glob.glob("/dev/shm/c10_dangerous_%d_*.jsonl" % os.getpid()):
+        os.remove(f)
     m = core.run_space(rep, flux_space(tier, seed), judge)
     core.run_space(rep, process_space(tier, seed), judge_process)
+    dangerous = []
+    for f in sorted(glob.glob("/dev/shm/c10_dangerous_%d_*.jsonl" % os.getpid())):
+        dangerous += [json.loads(line) for line in open(f)]
+        os.remove(f)
+    dangerous.sort(key=lambda c: json.dumps(c, sort_keys=True))
+    rep.note("dangerous_states_found", len(dangerous))
+    cap = 40 if tier == "quick" else 400
+    if len(dangerous) > cap:
+        dangerous = dangerous[::max(1, len(dangerous) // cap)][:cap]
+        rep.note("dangerous_states_driven_through_entry_points", "%d (every %d-th of those found)" % (len(dangerous), max(1, len(dangerous) // cap)))
+    if dangerous:
+        eps = core.ListSpace("entry_points_at_dangerous_states", [{"ep": ep, "state": d} for d in dangerous for ep in ENTRY_POINTS],
+                             note="states of the flux lattice at which the iteration cycles or needs > 20000 evaluations, driven through 8 public entry points")
+        core.run_space(rep, eps, judge_entry_point, chunk=1, determinism_probe=0)
     per = sum(v for k, v in m["outcomes"].items() if k.startswith("periodic"))
     rep.note("periodic_orbits_in_flux_lattice", per)
     rep.note("aperiodic_and_running", m["outcomes"].get("aperiodic-and-running", 0))
@@ -128,7 +199,7 @@ def main(tier, seed):
 
 
 def replay(body):
-    fn = judge_process if "kind" in body["case"] else judge
+    fn = judge_entry_point if "ep" in body["case"] else (judge_process if "kind" in body["case"] else judge)
     r1 = fn(body["case"])
     _CONFIRMED["n"] = 0
     r2 = fn(body["case"])
